@@ -56,8 +56,8 @@ func (world) Rule(p string) string {
 func (world) Components(p string) ([]string, []string) {
 	switch p {
 	case "C15", "C16":
-		return []string{"lib/blocktree (BlockTree, node, leafMap)", "dot/types header+BABE pre-digest encoding"},
-			[]string{"network delivery (tape-driven inboxes)", "arrival clock (explicit stamps)"}
+		return []string{"lib/blocktree (BlockTree, node, leafMap)", "dot/types header+BABE pre-digest encoding", "C15 concurrent runs: the same lib/blocktree sources, copied at check time with sync.RWMutex/Mutex replaced by the scheduler's (worlds/chain/prebuild.sh)"},
+			[]string{"network delivery (tape-driven inboxes)", "arrival clock (explicit stamps)", "goroutine scheduling in the concurrent C15 runs (cooperative scheduler: one caller runs at a time, switches only at Lock/Unlock)"}
 	case "C17":
 		return []string{"dot/state BlockState (AddBlock, SetFinalisedHash, handleFinalisedBlock, NewBlockState reload)", "dot/state InmemoryStorageState+Tries", "lib/blocktree", "pkg/trie/inmemory", "lib/runtime/storage.TrieState"},
 			[]string{"disk (simdisk)", "clock (synctest bubble)", "telemetry", "runtime (state changes drawn from the tape)", "network"}
